@@ -359,10 +359,30 @@ class Inliner:
         self._collect()
         self.unique_methods = self._unique_methods()
 
+    # -- module level, including the bodies of module-level if / try / with blocks
+    def _blocks(self):
+        out = []
+
+        def rec(body):
+            out.append(body)
+            for st in body:
+                if isinstance(st, (ast.If, ast.Try, ast.With)):
+                    for fld in ('body', 'orelse', 'finalbody'):
+                        sub = getattr(st, fld, None)
+                        if isinstance(sub, list) and sub:
+                            rec(sub)
+                    for h in getattr(st, 'handlers', None) or []:
+                        rec(h.body)
+        rec(self.tree.body)
+        return out
+
+    def _toplevel(self):
+        return [st for blk in self._blocks() for st in blk]
+
     # -- discovery
     def _collect(self):
         kf = set(self.known.get('functions', ()))
-        for st in self.tree.body:
+        for st in self._toplevel():
             if isinstance(st, ast.FunctionDef) and st.name not in kf:
                 if self._eligible(st, st.name):
                     self.funcs[st.name] = st
@@ -389,7 +409,7 @@ class Inliner:
         attribute of a builtin container / string / file type: ``x.name(...)`` can only mean it"""
         import io
         count = {}
-        for st in self.tree.body:
+        for st in self._toplevel():
             if isinstance(st, ast.ClassDef):
                 for s2 in st.body:
                     if isinstance(s2, ast.FunctionDef):
@@ -436,7 +456,7 @@ class Inliner:
         if (cls, name) in self.methods:
             return self.methods[(cls, name)]
         # defined (known) in the class itself: not a helper
-        for st in self.tree.body:
+        for st in self._toplevel():
             if isinstance(st, ast.ClassDef) and st.name == cls:
                 if any(isinstance(s, ast.FunctionDef) and s.name == name for s in st.body):
                     return None
@@ -486,7 +506,7 @@ class Inliner:
                     _simplify_function(n, self.records)
             ast.fix_missing_locations(self.tree)
             return self.tree
-        for st in self.tree.body:
+        for st in self._toplevel():
             if isinstance(st, ast.FunctionDef):
                 self._host(st, None)
             elif isinstance(st, ast.ClassDef):
@@ -509,7 +529,7 @@ class Inliner:
                     if scan(n, q):
                         return True
             return False
-        for st in self.tree.body:
+        for st in self._toplevel():
             if isinstance(st, ast.FunctionDef) and scan(st, st.name):
                 return True
             if isinstance(st, ast.ClassDef):
@@ -1241,8 +1261,9 @@ class Inliner:
             return out or [ast.Pass()]
         for _ in range(4):
             n = len(self.removed)
-            self.tree.body = prune(self.tree.body)
-            for st in self.tree.body:
+            for blk in self._blocks():
+                blk[:] = prune(blk)
+            for st in self._toplevel():
                 if isinstance(st, ast.ClassDef):
                     st.body = prune(st.body)
             if len(self.removed) == n:
